@@ -47,6 +47,11 @@ CLAIMS = {
         note="Trusted: Coq kernel/vm_compute; the hand transcription of the derive (pinned by the corpus correspondence, sampling); rustc. decl() taking no arguments is true of the model by construction and of the implementation by the correspondence only. Known classes (known_findings.json): a parameter under #[ts(inline)] makes decl() panic; optional/optional_fields on a bare parameter. Const parameters, lifetimes and #[ts(concrete)] are not in the generated fragment.",
         technique="Coq proof (induction over the Rust type grammar, case analysis of the derive layer, induction on generator fuel) + compiled corpus correspondence (model text vs real decl()/decl_concrete()/name()/inline()) + substitution oracle evaluated by Coq on the real declarations",
         ref="DESIGN.md section 5 C07, section 10"),
+    "C14": dict(
+        text="Coq theorems: the inline form of ANY type of ANY environment is the body of its own declaration instantiated at its arguments (C14_inline_is_instantiated_body = the instantiation theorem of C07, by induction over the type grammar and the generator's fuel); a reference by name denotes exactly what the declaration body denotes at the arguments, so an inlined field and a named field have the same inhabitants (C14_reference_denotes_body); an intersection of object types denotes the object with the merged property lists and distributes over the arms of a flattened enum (C14_flatten_merges, C14_flatten_enum_distributes) — i.e. `flatten` means merging the properties under the reading of Spec/TsSem.v; decl_concrete() is `type N = inline();` (C14_decl_concrete). `as = U` is the binding for U by construction of the model (f_ty is the `as` type) and is tied to the code by generated twins: every definition with a field-level `as` has a twin whose field has type U, and the two REAL declarations must be equal; every definition with `inline` fields has a twin without, and the same real serde_json values must be members of both real declarations (membership decided by Coq on the independently parsed real text); membership by real name() and by real inline() must agree on every value.",
+        note="Trusted: Coq kernel/vm_compute; the reading of TypeScript types (Spec/TsSem.v); the Python parser of real text (tools/tsparse.py); the corpus generator. The semantic theorems are about the AST: that the printed text denotes the AST is checked per generated case (norm_ok: textual merge = structural merge) — known class textual_merge where it is not. Variant- and container-level `as` are covered by the model/implementation text correspondence only.",
+        technique="Coq proof (instantiation theorem; semantic lemmas about intersections/references under an executable denotation) + twin-definition oracle on real declarations + Coq-decided membership of real serde_json values in real (parsed) declarations",
+        ref="DESIGN.md section 5 C14, section 10"),
     "C17": dict(
         text="Coq state machine (Model/ExportSM.v) with Ok/Err/Panic outcomes: theorems that a failing export_to changes neither the registry nor any file, that paths above the root and non-exportable roots are errors (with C08_absolute_above_root). Tied to the code on every run: histories with one obstacle (target is a directory, parent component is a regular file, above-root path, non-exportable root, export_all failing half-way) before each step, removal and retry, on a real directory under catch_unwind: no panic, and the tree after retry equals the fault-free tree; model and implementation compared byte for byte.",
         note="Trusted: Coq kernel/vm_compute; file system model (errors exactly where the property lists obstacles). Partial: I/O faults below File::create (short writes, sync_all) cannot be injected offline; the model has the insert-after-success branch, the implementation side of it is not exercised.",
